@@ -526,7 +526,52 @@ def check_scale(case, rng):
     return fails, stats
 
 
-CHECKS = {"scale": check_scale, "caps": check_caps, "exact": check_exact, "small": check_small, "chain": check_chain, "aux": check_aux, "coeff": check_coeff, "run": check_run}
+def check_bond1(case, rng):
+    """states with bonds of dimension exactly 1: an all-product state under a non-interacting H, or a state in which only one
+    parent-child pair is entangled while the other subtrees are uncoupled spectators; non-zero <H>.  Every scheme, real and
+    imaginary time, multi-step, compared PHASE-SENSITIVELY (norm of the state difference) with dense expm."""
+    from renormalizer import Op
+    fails, stats = [], {"errs": {}}
+    bt, order = L.build_basis(case["tree"])
+    ttno = L.TTNO(bt, L.build_terms(case["terms"]))
+    H = np.asarray(ttno.todense(order))
+    hn = float(np.linalg.norm(H, 2))
+    psi = L.TTNS(bt, {})
+    if case.get("pair"):
+        a, b = case["pair"]
+        ent = L.TTNO(bt, [bt.identity_op, Op("sigma_x sigma_x", [a, b], 0.625), Op("sigma_z sigma_z", [a, b], -0.375),
+                          Op("sigma_x", a, 0.25)])
+        psi = ent.apply(psi, canonicalise=True)
+        psi.normalize("ttns_and_coeff")
+    stats["bond_dims"] = [int(x) for x in psi.bond_dims]
+    if sum(1 for x in psi.bond_dims[1:] if x == 1) == 0:
+        fails.append({"what": "set-up: no non-root bond of dimension 1", "bond_dims": stats["bond_dims"]})
+    psi0 = L.dense(psi, order)
+    stats["energy"] = float(np.real(np.vdot(psi0, H @ psi0)))
+    step, ns = float(case["step"]), int(case["nsteps"])
+    for method in case["methods"]:
+        for imag in case["imag"]:
+            tau = tau_of(step, imag)
+            cur = L.config(psi.copy(), method)
+            ref, worst = psi0, 0.0
+            for k in range(ns):
+                cur = cur.evolve(ttno, tau)
+                ref = L.exact(H, ref, tau)
+                v = L.dense(cur, order)
+                worst = max(worst, float(np.linalg.norm(v - ref)))
+            ovl = complex(np.vdot(ref, v))
+            x = hn * step
+            tol = ns * (2.0 * x**5 / 120.0 * np.exp(x) + 1e-9) * (np.exp(ns * x) if imag else 1.0) if method == "pc" \
+                else ns * TOL_EXACT[method] * (np.exp(2 * ns * x) if imag else 1.0)
+            stats["errs"]["%s/%s" % (method, "imag" if imag else "real")] = worst
+            if worst > tol:
+                fails.append({"what": "state with bonds of dimension 1 differs from the dense propagator (phase-sensitive)",
+                              "method": method, "imag": imag, "err": worst, "tol": tol, "overlap_with_exact": [ovl.real, ovl.imag],
+                              "bond_dims": stats["bond_dims"], "energy": stats["energy"]})
+    return fails, stats
+
+
+CHECKS = {"bond1": check_bond1, "scale": check_scale, "caps": check_caps, "exact": check_exact, "small": check_small, "chain": check_chain, "aux": check_aux, "coeff": check_coeff, "run": check_run}
 
 
 def check_case(case, seed=0):
